@@ -57,6 +57,16 @@ Theorem C17_write_read_decimal : forall sh r s scale k, shape_ok sh -> s_kind s 
              r' (s_offset s) = k mod 65536 /\ (forall x, x <> s_offset s -> r' x = r x).
 Proof. exact write_read_decimal. Qed.
 
+(* a 4-byte unsigned (Long) setting: one multi-register write of two registers to its own offset, the value is read back, every register outside
+   the two is unchanged *)
+Theorem C17_write_read_long : forall sh r s v, shape_ok2 sh -> s_kind s = KLong -> s_size s = 4 -> 0 <= v < 4294967295 ->
+  exists r', write_setting sh r s (IInt v) = Ok (r', (s_offset s, 2)) /\ read_setting r' s = Ok (VInt v) /\
+             (forall x, x < s_offset s \/ s_offset s + 2 <= x -> r' x = r x).
+Proof. exact write_read_long. Qed.
+
+Theorem C17_generated_shapes_ok2 : shape_ok2 et_ws /\ shape_ok2 dt_ws.
+Proof. exact generated_shapes_ok2. Qed.
+
 (* the premises are met by the current source: shapes of ET / DT._write_setting, and sizes / scales of every such setting in the generated tables *)
 Theorem C17_generated_shapes_ok : shape_ok et_ws /\ shape_ok dt_ws.
 Proof. exact generated_shapes_ok. Qed.
@@ -76,3 +86,5 @@ Print Assumptions C17_write_read_byte_low.
 Print Assumptions C17_write_read_decimal.
 Print Assumptions C17_generated_shapes_ok.
 Print Assumptions C17_generated_settings_fit.
+Print Assumptions C17_write_read_long.
+Print Assumptions C17_generated_shapes_ok2.
